@@ -1656,6 +1656,18 @@ class DynDiGraph(nx.DiGraph):
 
         return dist
 
+    def clear(self):
+        """Remove all nodes and interactions from the graph (snapshots and interaction stream included)."""
+        nx.DiGraph.clear(self)
+        self.time_to_edge.clear()
+        self.snapshots.clear()
+
+    def clear_edges(self):
+        """Remove all interactions from the graph without altering nodes."""
+        nx.DiGraph.clear_edges(self)
+        self.time_to_edge.clear()
+        self.snapshots.clear()
+
     @not_implemented()
     def remove_edge(self, u, v):
         pass
